@@ -39,13 +39,14 @@ class CircWorld(StateWorld):
 
     def _p_ccnew(self, rng):
         return {"op": "ccnew", "circ": rng.choice(["c0", "c1", "c2"]),
-                "cls": rng.choice(["CliffordCircuit", "CliffordCircuit", "Circuit"])}
+                "cls": rng.choice(["CliffordCircuit", "CliffordCircuit", "Circuit"]) if self.S.name == "numpy"
+                else "CliffordCircuit"}
 
     def _p_take(self, rng):
         name = self._pickc(rng)
         if len(self.cw[name]["ref"]) >= self.cfg.get("max_gates", 12):
             return None
-        if "rejected_op" in self.cfg["faults"] and rng.random() < 0.06:
+        if "rejected_op" in self.cfg["faults"] and self.S.name == "numpy" and rng.random() < 0.06:
             q = sorted(set([rng.randrange(self.n), self.n + rng.randrange(2)]))
             return {"op": "take", "circ": name, "spec": {"kind": "gen", "qubits": q, "ctor": "set_generator",
                                                          "G": rm.pstr(rm.rand_hermitian(rng, len(q)))}, "bad": True}
@@ -62,7 +63,7 @@ class CircWorld(StateWorld):
         return {"op": "compose", "dst": dst, "src": src}
 
     def _p_badcompose(self, rng):
-        if "rejected_op" not in self.cfg["faults"]:
+        if "rejected_op" not in self.cfg["faults"] or self.S.name != "numpy":
             return None
         cc = [c for c in sorted(self.cw) if self.cw[c]["cls"] == "CliffordCircuit"]
         if not cc:
@@ -133,11 +134,23 @@ class CircWorld(StateWorld):
     def _viol(self, oracle, **detail):
         raise Violation(self.own + "." + oracle, detail)
 
+    def _build(self, spec):
+        """gate constructors are environment here: a constructor that raises is counted, not judged."""
+        try:
+            return self.build_gate(spec)
+        except Skip:
+            raise
+        except Exception as e:
+            self.stats["env_error:gate_ctor:%s:%s" % (spec.get("ctor") or spec["kind"], type(e).__name__)] += 1
+            raise Skip()
+
     def _new_entry(self, obj, cls):
         return {"obj": obj, "cls": cls, "gates": [], "ref": [], "specs": [], "stale": False, "compiled_any": False}
 
     def _a_ccnew(self, op):
         pc = self.pc
+        if op["cls"] != "CliffordCircuit" and self.S.name != "numpy":
+            raise Skip()   # torchclifford has no Circuit class
         obj = pc.identity_circuit(self.n) if op["cls"] == "CliffordCircuit" else pc.Circuit(self.n)
         self.cw[op["circ"]] = self._new_entry(obj, op["cls"])
         return "ok"
@@ -157,11 +170,11 @@ class CircWorld(StateWorld):
             # leave the circuit's action unchanged (checked by every later comparison)
             pc = self.pc
             q = op["spec"]["qubits"]
-            if max(q) < self.n:
+            if max(q) < self.n or self.S.name != "numpy":
                 raise Skip()
             G = rm.pparse(op["spec"]["G"])
             gate = pc.CliffordGate(*q)
-            gate.set_generator(sut.mk_pauli(G))
+            gate.set_generator(self.S.mk_pauli(G))
             self.stats["rejected_op"] += 1
             try:
                 c["obj"].take(gate)
@@ -172,7 +185,7 @@ class CircWorld(StateWorld):
             if self.own == "c09":
                 self._viol("unregistered_qubit_accepted", qubits=q)
             raise Skip()
-        gate, ref = self.build_gate(op["spec"])
+        gate, ref = self._build(op["spec"])
         if op["spec"]["kind"] in ("bmap",):
             # the forward semantics of a backward-map-only gate is the package's own inverse:
             # environment for C09 (captured), subject of C10's round trip
@@ -226,7 +239,7 @@ class CircWorld(StateWorld):
 
     def _a_badcompose(self, op):
         dst = self._get(op, "dst")
-        if op["n"] == self.n or op["n"] < 1:
+        if op["n"] == self.n or op["n"] < 1 or self.S.name != "numpy":
             raise Skip()
         other = self.pc.identity_circuit(op["n"])
         self.stats["rejected_op"] += 1
@@ -318,7 +331,7 @@ class CircWorld(StateWorld):
             r = rm.pparse(p["item"])
             if len(r[0]) != n:
                 raise Skip()
-            return sut.mk_pauli(r), [r], "pauli"
+            return self.S.mk_pauli(r), [r], "pauli"
         if t == "list":
             rs = sut.parse_list(p["items"])
             if any(len(r[0]) != n for r in rs):
@@ -328,18 +341,18 @@ class CircWorld(StateWorld):
                 big = []
                 for r in rs:
                     big += [r, junk]
-                return sut.mk_list(big)[::2], rs, "list"
-            return sut.mk_list(rs), rs, "list"
+                return self.S.mk_list(big)[::2], rs, "list"
+            return self.S.mk_list(rs), rs, "list"
         if t == "map":
             rs = sut.parse_list(p["images"])
             if len(rs) != 2 * n or any(len(r[0]) != n for r in rs):
                 raise Skip()
-            return sut.mk_map(rs), rs, "map"
+            return self.S.mk_map(rs), rs, "map"
         gens = sut.parse_list(p["gens"])
         if any(len(g[0]) != n for g in gens):
             raise Skip()
         try:
-            st = pc.stabilizer_state(sut.mk_list(gens))
+            st = pc.stabilizer_state(self.S.mk_list(gens))
             a = rm.alpha(st.gs, st.ps, st.r, n)
         except Exception:
             raise Skip()
@@ -347,16 +360,14 @@ class CircWorld(StateWorld):
 
     def copy_probe(self, obj, kind):
         """an independent duplicate built by the harness (copy() itself is C17's business)."""
-        pc = self.pc
+        pc, S = self.pc, self.S
         if kind == "pauli":
-            return pc.Pauli(np.array(obj.g).copy(), int(obj.p))
+            return pc.Pauli(S.clone(obj.g), int(obj.p))
         if kind == "list":
-            return pc.PauliList(np.array(obj.gs).copy(), np.array(obj.ps).copy())
+            return pc.PauliList(S.clone(obj.gs), S.clone(obj.ps))
         if kind == "map":
-            return pc.CliffordMap(np.array(obj.gs).copy(), np.array(obj.ps).copy())
-        st = pc.StabilizerState(gs=np.array(obj.gs).copy(), ps=np.array(obj.ps).copy())
-        st.r = int(obj.r)
-        return st
+            return pc.CliffordMap(S.clone(obj.gs), S.clone(obj.ps))
+        return S.mk_state(obj.gs, obj.ps, obj.r)
 
     def observe(self, obj, kind):
         if kind == "pauli":
@@ -501,7 +512,7 @@ class CircWorld(StateWorld):
         return [ctx, k]
 
     def _a_freshgate(self, op):
-        gate, ref = self.build_gate(op["spec"])
+        gate, ref = self._build(op["spec"])
         if op.get("precompile"):
             try:
                 gate.compile()
